@@ -120,9 +120,25 @@ pub fn run_with_timeout(cmd: &mut Command, timeout_s: u64) -> CliResult {
     }
 }
 
+/// The command that runs oal-cli, possibly under a wrapper (OALV_CLI_WRAPPER, e.g. valgrind or strace).
+fn cli_command() -> Command {
+    match std::env::var("OALV_CLI_WRAPPER") {
+        Ok(w) if !w.trim().is_empty() => {
+            let mut parts = w.split_whitespace();
+            let mut cmd = Command::new(parts.next().unwrap());
+            for p in parts {
+                cmd.arg(p);
+            }
+            cmd.arg(cli_path());
+            cmd
+        }
+        _ => Command::new(cli_path()),
+    }
+}
+
 /// Runs oal-cli in `dir` with -m/-t(/-b) options.
 pub fn run_cli(dir: &Path, main: &str, target: &str, base: Option<&str>) -> CliResult {
-    let mut cmd = Command::new(cli_path());
+    let mut cmd = cli_command();
     cmd.current_dir(dir).arg("-m").arg(main).arg("-t").arg(target);
     if let Some(b) = base {
         cmd.arg("-b").arg(b);
@@ -132,7 +148,7 @@ pub fn run_cli(dir: &Path, main: &str, target: &str, base: Option<&str>) -> CliR
 
 /// Runs oal-cli with a configuration file.
 pub fn run_cli_conf(dir: &Path, conf: &str) -> CliResult {
-    let mut cmd = Command::new(cli_path());
+    let mut cmd = cli_command();
     cmd.current_dir(dir).arg("--conf").arg(conf);
     run_with_timeout(&mut cmd, 60)
 }
